@@ -517,8 +517,8 @@ VFS_VERBS = {b"has", b"get", b"stat", b"list_dir", b"iter_files_recursive", b"pu
 
 
 def _verb_family(verb, cp):
-    """only the VFS verbs (whose translate_client_path unescapes) belong to the vfs-* finding families"""
-    return _family("vfs", cp) if verb in VFS_VERBS else None
+    """no verb has a finding family any more (the VFS breakout was fixed): always a plain violation"""
+    return None
 
 
 def dispatch(s, verb, args, body=None, commands=None):
@@ -861,8 +861,8 @@ def run(ctx, n_exh=None, n_deep=None, n_verbs=None):
     shallow = gen_exhaustive(n_exh)
     deep_set = set(gen_exhaustive(n_deep))
     verbs_set = gen_exhaustive(n_verbs)
-    rnd = gen_random(rng, ctx.pick(1000, 12000), 3, 8)
-    rnd_verbs = rnd[: ctx.pick(20, 200)]
+    rnd = gen_random(rng, ctx.pick(700, 12000), 3, 8)
+    rnd_verbs = rnd[: ctx.pick(12, 200)]
     bad = gen_malformed(rng, ctx.pick(150, 1000))
     ctx.extra["domain"] = dict(tokens=TOKENS, exhaustive_translate=n_exh, exhaustive_stack=n_deep,
                                exhaustive_verbs=n_verbs, random=len(rnd), malformed=len(bad), configs=CONFIGS)
@@ -900,7 +900,7 @@ def run(ctx, n_exh=None, n_deep=None, n_verbs=None):
     t0 = time.time()
     for i, k in enumerate(CONFIGS):
         # every verb class: the whole <= n_verbs-token set on the first configuration, a sample on the others
-        vs = verbs_set if (i == 0 or ctx.thorough()) else rng.sample(verbs_set, min(len(verbs_set), 20))
+        vs = verbs_set if (i == 0 or ctx.thorough()) else rng.sample(verbs_set, min(len(verbs_set), 12))
         for cp in prefixed(k[0], SEEDS + vs + rnd_verbs):
             verbs_case(ctx, sa[k], sb[k], cp)
     tm["verbs"] = round(time.time() - t0, 1)
